@@ -26,6 +26,8 @@
 # policies, either expressed or implied, of Matt Chaput.
 
 import copy
+import re
+import sys
 
 from whoosh import query
 from whoosh.compat import u
@@ -214,6 +216,16 @@ class RegexPlugin(TaggingPlugin):
 
         def r(self):
             return "Regex %r" % self.text
+
+        def query(self, parser):
+            # Report an invalid expression in-band instead of letting the
+            # query fail when it is compiled at search time
+            try:
+                re.compile(self.text)
+            except re.error:
+                e = sys.exc_info()[1]
+                return attach(query.error_query(e), self)
+            return syntax.TextNode.query(self, parser)
 
     expr = 'r"(?P<text>[^"]*)"'
     nodetype = RegexNode
